@@ -147,6 +147,14 @@ check("C17", "model_checking",
       "Trusted: the reference mirror in checks/c17.py and the link resolver. A missing ordered_subpage entry is expected to abort with a message naming it.",
       "exhaustive enumeration of small directory trees against a reference mirror + link resolver", "DESIGN.md 5/C17")
 
+check("C18", "model_checking",
+      "All sequences of <= 2 (thorough 3) symbols over 18 HTML/Markdown-significant pieces are placed as character literals at 9 declaration sites whose text reaches a page "
+      "(initial value of module variable / local / component / namelist member, bind name of procedure and variable, kind / len / dimension expression) plus relational-operator "
+      "expressions; the site is built by the real pipeline, the page parsed, and for the row or heading of every declaration the oracle demands the source text verbatim and the "
+      "same element structure as for the neutral literal 'x'.",
+      "Trusted: the row locator / DOM shape comparison in checks/c18.py (html.parser). Four sites where FORD shows a placeholder or a truncated expression are listed known findings (text clause only; structure changes there are still reported).",
+      "bounded-exhaustive enumeration of literal contents x display sites with verbatim-text and DOM-shape oracles", "DESIGN.md 5/C18")
+
 ALL = [f"C{i:02d}" for i in range(1, 21)]
 PENDING_REASON = "check not built yet in this round (planned: see DESIGN.md section 5); will be claimed once its exhaustive check exists"
 
